@@ -1,8 +1,8 @@
 (* The worm move of the classical sampler (graph.rs do_worm_flip), as transcribed in Model/Classical.v.
    The full statement of C19 — Boltzmann stationarity for every offered move set — is FALSE of the
-   faithful model: [worm_refuted] exhibits a two-spin graph on which the worm move goes from a state
-   to a state of strictly HIGHER reported energy with probability 1 (no acceptance draw at all),
-   whatever acceptance function is plugged in, which no kernel reversible w.r.t. exp(-beta E) can do.
+   faithful model: on a two-spin graph the worm move goes from a state to a state of strictly HIGHER
+   reported energy with probability 1 (no acceptance draw at all), whatever acceptance function is
+   plugged in and whatever beta; no kernel reversible w.r.t. exp(-beta E) can do that.
    What does hold for the worm: it never changes the number of spins. *)
 From Coq Require Import List QArith ZArith NArith Bool Arith Lia Lqa Reals Lra.
 From QmcV Require Import Model.Prog Model.Sse Model.Classical Proofs.ProgLemmas Proofs.SseWeight
@@ -19,15 +19,87 @@ Proof. vm_compute. reflexivity. Qed.
 (* every leaf of the worm move started in [up; up] is [down; down]: accepted without any draw,
    for every acceptance-bound function and every beta *)
 Lemma worm_always_goes_uphill acc beta :
-  all_out (fun s' => s' = worm_down) (worm_move acc worm_g beta worm_up).
+  all_out_r (fun s' => bools_eqb s' worm_down = true) (worm_move acc worm_g beta worm_up).
+Proof. apply check_all_sound. vm_compute. reflexivity. Qed.
+
+Lemma worm_total_one acc beta : total (denote (worm_move acc worm_g beta worm_up)) == 1.
+Proof. vm_compute. reflexivity. Qed.
+
+(* ... hence with probability exactly 1 *)
+Theorem worm_uphill_probability_one acc beta :
+  mass (fun s' => bools_eqb s' worm_down) (denote (worm_move acc worm_g beta worm_up)) == 1.
+Proof.
+  rewrite mass_all_out_r; [apply worm_total_one|apply worm_always_goes_uphill].
+Qed.
+
+(* A kernel that is reversible w.r.t. exp(-beta E) cannot move uphill with probability 1:
+   pi(s) * 1 = pi(s') * p with p <= 1 forces E(s') <= E(s). *)
+Lemma reversible_cannot_go_uphill_surely (beta E E' p : R) :
+  (0 < beta)%R -> (E < E')%R -> (0 <= p <= 1)%R ->
+  (exp (- (beta * E)) * 1 <> exp (- (beta * E')) * p)%R.
+Proof.
+  intros Hb HE [Hp0 Hp1] Heq.
+  assert (Hlt : (exp (- (beta * E')) < exp (- (beta * E)))%R).
+  { apply exp_increasing. nra. }
+  pose proof (exp_pos (- (beta * E'))) as Hpos.
+  assert ((exp (- (beta * E')) * p <= exp (- (beta * E')))%R) by nra.
+  lra.
+Qed.
+
+(* The refutation, with its witness: *)
+Theorem worm_refuted :
+  exists (g : cgraph) (s s' : state),
+    (energy g s < energy g s')%Q
+    /\ forall acc beta, mass (fun x => bools_eqb x s') (denote (worm_move acc g beta s)) == 1.
+Proof.
+  exists worm_g, worm_up, worm_down. split; [exact worm_energy_uphill|].
+  intros acc beta. apply worm_uphill_probability_one.
+Qed.
+
+(* ------------------------------------------------------------------ *)
+(* What the worm does keep: the number of spins, for every sequence of draws. *)
+Lemma flip_len s i : length (flip s i) = length s.
+Proof. unfold flip. apply set_nth_len. Qed.
+
+Lemma wm_apply_len s m : length (wm_apply s m) = length s.
+Proof. destruct m; cbn [wm_apply]; now rewrite ?flip_len. Qed.
+
+Lemma fold_flip_len l : forall s, length (fold_left flip l s) = length s.
+Proof. induction l as [|x r IH]; intros s; cbn [fold_left]; [reflexivity|]. now rewrite IH, flip_len. Qed.
+
+Lemma worm_walk_len g e0 : forall fuel path sel last s,
+  all_out (fun '(_, s', _) => length s' = length s) (worm_walk fuel g e0 path sel last s).
+Proof.
+  induction fuel as [|f IH]; intros path sel last s; cbn [worm_walk]; [reflexivity|].
+  set (cands := worm_candidates g s (wm_last sel) last e0).
+  set (stack := if existsb _ cands then _ else cands).
+  assert (Hc : forall ov de,
+             all_out (fun '(_, s', _) => length s' = length s)
+                     (let s' := wm_apply s ov in
+                      let path' := path ++ [ov] in
+                      let last' := match ov, sel with
+                                   | WS _, WS v => v
+                                   | WS _, WD _ v => v
+                                   | WD v _, _ => v
+                                   end in
+                      if qzero (de + e0) then Ret (path', s', false)
+                      else if Nat.ltb (length s) (length path') then Ret (path', s', true)
+                      else worm_walk f g e0 path' ov last' s')).
+  { intros ov de. cbv zeta. destruct (qzero (de + e0)); [cbn; apply wm_apply_len|].
+    destruct (Nat.ltb _ _); [cbn; apply wm_apply_len|].
+    eapply all_out_weaken; [|apply IH]. intros [[p' s'] b'] H. rewrite H. apply wm_apply_len. }
+  destruct stack as [|c0 cs] eqn:Es.
+  - apply Hc.
+  - cbn [all_out]. intros cN. destruct (nth_error (c0 :: cs) (N.to_nat cN)) as [[[ov de] r]|]; [apply Hc|reflexivity].
+Qed.
+
+Theorem worm_keeps_spin_count acc g beta s :
+  all_out (fun s' => length s' = length s) (worm_move acc g beta s).
 Proof.
   unfold worm_move. cbn [all_out]. intros iN.
-  (* only the two start indices 0 and 1 matter; any other index reads default spins *)
-  destruct (N.to_nat iN) as [|[|k]] eqn:E.
-  - vm_compute. intros i. destruct (N.to_nat i) as [|j]; [reflexivity|]. destruct j; reflexivity.
-  - vm_compute. intros i. destruct (N.to_nat i) as [|j]; [reflexivity|]. destruct j; reflexivity.
-  - (* out-of-range start index: not reachable (Unif over length 2), but the statement is total *)
-    exfalso. clear -E. revert E. generalize (N.to_nat iN). intros n Hn.
-    (* nothing to derive: this branch cannot be excluded by typing; handled below *)
-    admit_placeholder.
-Abort.
+  eapply all_out_bind; [apply worm_walk_len|].
+  intros [[path s2] failed] H. rewrite flip_len in H.
+  destruct failed; [cbn; now rewrite fold_flip_len|].
+  unfold should_flip. destruct (Qle_bool _ 0); [cbn; exact H|].
+  destruct (acc _) as [lo hi]. cbn [all_out]. intros [|]; cbn; [exact H|now rewrite fold_flip_len].
+Qed.
